@@ -8,6 +8,7 @@ import (
 	"fmt"
 	"reflect"
 	"strings"
+	"time"
 
 	"github.com/creachadair/jrpc2"
 	"github.com/creachadair/jrpc2/handler"
@@ -82,6 +83,8 @@ type P13 struct {
 	F json.Number
 }
 
+type NS string
+
 type P10 struct {
 	R json.RawMessage
 	O Opt
@@ -111,6 +114,9 @@ func c15ArgTypes() []argType {
 		{"float64", reflect.TypeOf(0.0), nil}, {"[]int", reflect.TypeOf([]int(nil)), nil}, {"map[string]int", reflect.TypeOf(map[string]int(nil)), nil},
 		{"[2]int", reflect.TypeOf([2]int{}), nil}, {"any", tAny, nil}, {"json.RawMessage", reflect.TypeOf(json.RawMessage(nil)), nil},
 		{"*int", reflect.TypeOf((*int)(nil)), nil},
+		{"NS (named string)", reflect.TypeOf(NS("")), nil}, {"time.Duration", reflect.TypeOf(time.Duration(0)), nil},
+		{"[]P1", reflect.TypeOf([]P1(nil)), nil}, {"[1]P1", reflect.TypeOf([1]P1{}), nil}, {"map[string]P1", reflect.TypeOf(map[string]P1(nil)), nil},
+		{"*[]P1", reflect.TypeOf((*[]P1)(nil)), nil}, {"[]*P1", reflect.TypeOf([]*P1(nil)), nil},
 	}
 	out = append(out, st("P1", P1{}, "A", "B")...)
 	out = append(out, st("P2", P2{}, "x", "y")...)
@@ -255,7 +261,9 @@ func c15ParamsFor(at argType) []string {
 		// unknown keys below the top level, in both notations
 		`[{"A":1,"Zz":9},null,[3]]`, `{"N":{"A":1,"Zz":9}}`, `[{"A":1,"Zz":9},2]`, `{"N":{"A":1,"Zz":9},"K":2}`, `[{"A":1},2]`, `[7,{"k":1,"k2":2}]`,
 		// values whose spelling must survive the array translation
-		`[9007199254740993,"s"]`, `{"A":9007199254740993,"B":"s"}`, `[9007199254740993,18446744073709551615,1.10]`, `{"I":-9007199254740993,"U":18446744073709551615,"F":1e2}`, `[{"k":1.50,"a":[1e2]},5,1]`}
+		`[9007199254740993,"s"]`, `{"A":9007199254740993,"B":"s"}`, `[9007199254740993,18446744073709551615,1.10]`, `{"I":-9007199254740993,"U":18446744073709551615,"F":1e2}`, `[{"k":1.50,"a":[1e2]},5,1]`,
+		// containers of structs: unknown keys inside the elements
+		`[{"A":1,"B":"x"}]`, `[{"A":1,"B":"x","Zz":true}]`, `{"k":{"A":1}}`, `{"k":{"A":1,"Zz":2}}`, `[{"A":1},{"Zz":2}]`, `[null]`, `"named"`, `1500000000`}
 	return ps
 }
 
